@@ -86,7 +86,7 @@ def coq_make(targets, timeout=3000):
 
 def build_model():
     """Extract the executable model and build the OCaml driver."""
-    ok, log = coq_make(["Model/ScanRun.vo", "Model/Entry.vo", "Model/Lazy.vo"] if os.path.exists(os.path.join(COQ, "Model/Entry.v")) else ["Model/ScanRun.vo"])
+    ok, log = coq_make(["Model/ScanRun.vo", "Model/Entry.vo", "Model/Lazy.vo", "Model/OpenApi.vo"] if os.path.exists(os.path.join(COQ, "Model/Entry.v")) else ["Model/ScanRun.vo"])
     if not ok:
         raise BrokenTie("the executable model does not compile against the regenerated program", log[-4000:])
     gen = os.path.join(VERIF, "ocaml", "gen")
